@@ -473,6 +473,15 @@ Proof.
     cbn [app] in HT. exact HT.
 Qed.
 
+Lemma classic_up md ng v pr : up_spec md ng v pr \/ ~ up_spec md ng v pr.
+Proof.
+  unfold up_spec. destruct (dir_of md ng); [right; tauto|left; exact I| |].
+  - destruct (Qlt_le_dec (scaled 5 (- pr - 1)) v) as [H|H]; [left; exact H|right].
+    intros C. apply (Qlt_irrefl v). eapply Qle_lt_trans; eassumption.
+  - destruct (Qlt_le_dec v (scaled 5 (- pr - 1))) as [H|H]; [right|left; exact H].
+    intros C. apply (Qlt_irrefl v). eapply Qlt_le_trans; eassumption.
+Qed.
+
 Lemma fmtF_zero buf x pr : dform x = Fzero -> 0 <= pr ->
   fmtF buf x pr = Some (buf ++ [48] ++ (if 0 <? pr then 46 :: zeros pr else [])).
 Proof.
@@ -549,7 +558,70 @@ Proof.
         as (x1 & Er & Hspec & Hp1 & Hm1 & Hw1).
       rewrite Hrnd in Hspec. replace (Z.max (exp x + pr) 0) with (exp x + pr) in Hspec by lia.
       assert (Hf1 : dform x1 = Ffinite) by (eapply round_stays_finite; [exact Hx|exact He| |exact Hspec]; lia).
-      exists x1. split; [destruct Hspec as [Hn _]; exact Hn|]. split; [right; left; auto|]. split.
+      exists x1. split; [destruct Hspec as [Hn _]; exact Hn|]. split; [right; left; split; [lia|split; assumption]|]. split.
       * intros _. apply Hfin; assumption.
       * intros Hz1. congruence.
+Qed.
+
+(* Append for 'g' / 'G' with an explicit precision: round once to P = max(pr,1)
+   digits, then choose the 'e' layout when the exponent of the rounded value is
+   below -4 or at least eprec (P, or the digit count when trailing zeros were
+   dropped and the value is below 10^digits), else the 'f' layout with just
+   enough digits *)
+Theorem append_g buf x fmt pr :
+  WF x -> dform x = Ffinite -> (fmt = 103 \/ fmt = 71) -> exp x < MaxExp ->
+  mdigits (mant x) < 4294967296 - 18 -> 0 <= pr -> pr + 1 <= MaxPrec ->
+  let P := if pr =? 0 then 1 else pr in
+  exists x1 D1 d0 tl,
+    SigDigits x1 D1 /\ D1 = d0 :: tl /\ dform x1 = Ffinite /\ neg x1 = neg x /\
+    ((forall n, MinPrec x = Some n -> n <= P) /\ x1 = x \/
+     (exists n, MinPrec x = Some n /\ P < n) /\ result_spec P (dmode x) (neg x) (mag x) x1) /\
+    let nd := zlen D1 in
+    let eprec := if (nd <? P) && (exp x1 <=? nd) then nd else P in
+    let ech := fmt + 101 - 103 in
+    Append buf x fmt pr =
+      if (exp x1 - 1 <? -4) || (eprec <=? exp x1 - 1) then
+        let q := (if nd <? P then nd else P) - 1 in
+        Some ((buf ++ sign_bytes (neg x)) ++ [d0] ++
+              (if 0 <? q then 46 :: firstn (Z.to_nat q) tl ++ zeros (q - Z.min q (zlen tl)) else []) ++
+              [ech; e_sign (exp x1 - 1)] ++ exp_digits (exp x1 - 1))
+      else
+        let q := Z.max ((if exp x1 <? P then nd else P) - exp x1) 0 in
+        Some ((buf ++ sign_bytes (neg x)) ++ f_int D1 (exp x1) ++
+              (if 0 <? q then 46 :: frac_window D1 (exp x1) q else [])).
+Proof.
+  intros Hwf Hf Hfmt He Hlen Hpr Hmax P.
+  assert (HP : 1 <= P <= pr + 1) by (unfold P; destruct (Z.eqb_spec pr 0); lia).
+  pose proof (WF_finite x Hwf Hf) as Hx.
+  destruct (sig_digits x Hx Hf) as (D & S).
+  pose proof (sd_minprec x D S) as Hmp. set (n := zlen D) in *.
+  assert (Hrnd : rnd_of x fmt pr = P).
+  { unfold rnd_of, P. destruct Hfmt as [-> | ->]; reflexivity. }
+  assert (Hx1 : exists x1, round_for_fmt x fmt pr n = Some x1 /\ WF x1 /\ dform x1 = Ffinite /\ neg x1 = neg x /\
+            ((n <= P /\ x1 = x) \/ (P < n /\ result_spec P (dmode x) (neg x) (mag x) x1))).
+  { destruct (Z.le_gt_cases n P) as [Hle|Hgt].
+    - exists x. rewrite round_step_id by (rewrite Hrnd; exact Hle). auto 10.
+    - destruct (round_step x fmt pr n Hwf Hf Hlen ltac:(rewrite Hrnd; lia) ltac:(rewrite Hrnd; lia))
+        as (x1 & E & Hspec & Hp1 & Hm1 & Hwf1).
+      rewrite Hrnd in Hspec. exists x1. split; [exact E|]. split; [exact Hwf1|].
+      split; [eapply round_stays_finite; [exact Hx|exact He| |exact Hspec]; lia|].
+      split; [destruct Hspec as [Hn _]; exact Hn|]. right. auto. }
+  destruct Hx1 as (x1 & Er & Hwf1 & Hf1 & Hn1 & Hcase).
+  destruct (sig_digits x1 (WF_finite x1 Hwf1 Hf1) Hf1) as (D1 & S1).
+  destruct (sd_len x1 D1 S1) as [Hnd1 _].
+  set (nd := zlen D1) in *.
+  set (q1 := (if nd <? P then nd else P) - 1).
+  assert (Hq1 : 0 <= q1) by (unfold q1; destruct (nd <? P); lia).
+  destruct (fmtE_layout (buf ++ sign_bytes (neg x)) x1 D1 (fmt + 101 - 103) q1 S1 Hf1 Hq1) as (d0 & tl & ED1 & HE).
+  exists x1, D1, d0, tl. split; [exact S1|]. split; [exact ED1|]. split; [exact Hf1|]. split; [exact Hn1|]. split.
+  - destruct Hcase as [[Hle ->]|[Hgt Hspec]].
+    + left. split; [|reflexivity]. intros n0 E0. rewrite Hmp in E0. injection E0 as <-. exact Hle.
+    + right. split; [exists n; auto|exact Hspec].
+  - cbv zeta. unfold Append. rewrite Hf, Hmp.
+    replace (pr <? 0) with false by (symmetry; apply Z.ltb_ge; lia).
+    destruct Hfmt as [-> | ->]; cbv beta iota zeta;
+      cbn [Z.eqb Pos.eqb is_eE is_gG orb andb]; fold P;
+      rewrite Er, (sd_minprec x1 D1 S1); fold nd; unfold mexp; rewrite ?Hf1; cbv iota;
+      (destruct ((exp x1 - 1 <? -4) || ((if (nd <? P) && (exp x1 <=? nd) then nd else P) <=? exp x1 - 1));
+       [exact HE|apply fmtF_layout; [exact S1|exact Hf1|lia]]).
 Qed.
